@@ -172,6 +172,8 @@ type outcome struct {
 	expected []uint32 // sorted
 	nStmts   int
 	maxPer   int // rows of the largest physical statement
+	// some physical result is larger than the streaming threshold
+	multiChunk bool
 }
 
 func sqlFor(path string, r, s, tag int, placeholders bool) (string, []int64) {
@@ -241,6 +243,9 @@ func (g *rig) runStmt(cl *e2erig.Client, path, proto string, r, s int) outcome {
 		if rec.n > o.maxPer {
 			o.maxPer = rec.n
 		}
+		if rec.n*rowPayload(rec.size) > threshold {
+			o.multiChunk = true
+		}
 		for i := 0; i < rec.n; i++ {
 			o.expected = append(o.expected, fakemysql.RowSum(rec.seed, i, rec.size))
 		}
@@ -303,7 +308,9 @@ func sizeClass(r, s int) string {
 //
 //	rows:  the received multiset must equal what the backends produced (else "truncated"
 //	       / "corrupted"), and no physical statement may exceed the limit ("limit_not_enforced")
-//	error / closed connection: allowed when some per-shard result exceeds the limit;
+//	error / closed connection: allowed when some per-shard result exceeds the limit, and
+//	       in the unlimited namespace when a physical result exceeds the 16 MiB streaming
+//	       threshold (there is no limit the statement promises delivery against);
 //	       otherwise "error_within_limit" (the statement promises delivery in full)
 //	protocol garbage: "protocol"
 func judge(limit int, o outcome) string {
@@ -325,6 +332,10 @@ func judge(limit int, o outcome) string {
 		}
 		if o.nStmts == 0 {
 			return "" // rejected before reaching a backend: nothing was produced
+		}
+		if limit < 0 && o.multiChunk {
+			// no row limit to promise delivery against: "or the client receives an error"
+			return ""
 		}
 		return "error_within_limit"
 	case "ok":
@@ -403,28 +414,32 @@ func (g *rig) runCase(r *ev.Run, c Case) (key string, viols int) {
 
 func universe(thorough bool) []Case {
 	var cs []Case
-	add := func(limit int, r, s int, note string) {
-		for _, p := range paths {
-			for _, pr := range protos {
-				cs = append(cs, Case{Limit: limit, Path: p, Proto: pr, R: r, S: s, Note: note})
-			}
+	type pp struct{ path, proto string }
+	var all []pp
+	for _, p := range paths {
+		for _, pr := range protos {
+			all = append(all, pp{p, pr})
 		}
 	}
-	// (1) around the row limit, small rows
+	add := func(on []pp, limit int, r, s int, note string) {
+		for _, x := range on {
+			cs = append(cs, Case{Limit: limit, Path: x.path, Proto: x.proto, R: r, S: s, Note: note})
+		}
+	}
+	// (1) around the row limit, small rows: all paths x protocols in both tiers
 	smallS := []int{1, 1024}
 	for _, limit := range []int{1, 3} {
 		for _, r := range []int{limit - 1, limit, limit + 1} {
 			for _, s := range smallS {
-				add(limit, r, s, "row limit")
+				add(all, limit, r, s, "row limit")
 			}
 		}
 	}
 	for _, r := range []int{0, 1, 4} {
 		for _, s := range smallS {
-			add(-1, r, s, "unlimited")
+			add(all, -1, r, s, "unlimited")
 		}
 	}
-	add(-1, 10001, 1, "unlimited: more rows than the default limit 10000")
 	// (2) around the 16 MiB streaming threshold, unlimited namespace
 	type rs struct{ r, s int }
 	var big []rs
@@ -437,25 +452,27 @@ func universe(thorough bool) []Case {
 		big = append(big, rs{(33*MiB + p - 1) / p, s})
 	}
 	if thorough {
+		add(all, -1, 10001, 1, "unlimited: more rows than the default limit 10000")
 		around(64) // stands in for 1-byte rows (8.4 M rows per case would be needed)
 		around(1024)
 		around(MiB)
 		big = append(big, rs{1, 16*MiB - 1}, rs{2, 16*MiB - 1}, rs{3, 16*MiB - 1})
 		big = append(big, rs{1, 16*MiB + 1}, rs{2, 16*MiB + 1})
 		big = append(big, rs{1, 16*MiB - 5}, rs{1, 16*MiB - 4}) // payload == threshold / threshold+1
+		for _, b := range big {
+			add(all, -1, b.r, b.s, "16 MiB threshold")
+		}
+		// (3) row limit together with streaming: limit 3, rows of 9 MiB (a chunk holds 2 rows)
+		for _, r := range []int{2, 3, 4, 5} {
+			add(all, 3, r, 9*MiB, "row limit across 16 MiB chunks")
+		}
 	} else {
-		big = append(big, rs{17, MiB}) // one > 16 MiB case per path and protocol
-	}
-	for _, b := range big {
-		add(-1, b.r, b.s, "16 MiB threshold")
-	}
-	// (3) row limit together with streaming: limit 3, rows of 9 MiB (a chunk holds 2 rows)
-	lim := []int{4}
-	if thorough {
-		lim = []int{2, 3, 4, 5}
-	}
-	for _, r := range lim {
-		add(3, r, 9*MiB, "row limit across 16 MiB chunks")
+		// quick: one > 16 MiB result per path (text; binary on the unsharded path too) and
+		// one limit-with-streaming case
+		q := []pp{{"unsharded", "text"}, {"unsharded", "binary"}, {"shard1", "text"}, {"shard2slices", "text"}, {"shard2tables", "text"}}
+		add([]pp{{"unsharded", "text"}, {"shard2slices", "binary"}}, -1, 10001, 1, "unlimited: more rows than the default limit 10000")
+		add(q, -1, 17, MiB, "16 MiB threshold")
+		add([]pp{{"unsharded", "text"}}, 3, 4, 9*MiB, "row limit across 16 MiB chunks")
 	}
 	return cs
 }
